@@ -9,7 +9,7 @@ use crate::explore::{self, Scenario};
 use crate::fixture::Torrent;
 use crate::refwire::{self, Msg};
 use crate::world::{peer_cfg, Ev, World, WorldCfg};
-use rdest::verif::{BroadCmd, PeerSnap};
+use rdest::verif::{BroadCmd, PeerSnap, Status};
 use serde_json::{json, Value};
 use std::collections::BTreeMap;
 
@@ -57,6 +57,15 @@ pub fn limits(peers: &[PeerSnap]) -> Option<(&'static str, String)> {
 
 /// Policy after a rotation that was carried out, and agreement of the broadcast with the change.
 pub fn rotation_oracle(prev: &[PeerSnap], now: &[PeerSnap], broadcasts: &[BroadCmd]) -> Option<(&'static str, String)> {
+    rotation_oracle_by(prev, now, broadcasts, false)
+}
+
+/// `seeder`: the client owns every piece. The checkout ranks peers by the rate of data received from
+/// them while it is a seeder and by the rate of data sent to them otherwise; these are taken as the
+/// definition of "measured rate" per role (in most scenarios both rates are equal and the role is
+/// immaterial).
+pub fn rotation_oracle_by(prev: &[PeerSnap], now: &[PeerSnap], broadcasts: &[BroadCmd], seeder: bool) -> Option<(&'static str, String)> {
+    let measured = |p: &PeerSnap| if seeder { p.download_rate.unwrap_or(0) } else { p.uploaded_rate.unwrap_or(0) };
     let carried_out = prev.iter().all(|p| p.download_rate.is_some() && p.uploaded_rate.is_some());
     let maps: Vec<&std::collections::HashMap<String, bool>> = broadcasts.iter().filter_map(|b| if let BroadCmd::SendOwnState { am_choked_map } = b { Some(am_choked_map) } else { None }).collect();
     let changed: BTreeMap<String, bool> = now
@@ -87,8 +96,8 @@ pub fn rotation_oracle(prev: &[PeerSnap], now: &[PeerSnap], broadcasts: &[BroadC
     }
     for c in now.iter().filter(|p| p.am_choked && p.interested) {
         for h in &holders {
-            if c.uploaded_rate.unwrap_or(0) > h.uploaded_rate.unwrap_or(0) {
-                return Some(("better-peer-left-choked", format!("{} (rate {:?}) is choked while {} (rate {:?}) holds a slot: {:?}", c.addr, c.uploaded_rate, h.addr, h.uploaded_rate, now.iter().map(peer_tuple).collect::<Vec<_>>())));
+            if measured(c) > measured(h) {
+                return Some(("better-peer-left-choked", format!("{} (rate {}) is choked while {} (rate {}) holds a slot (client owns every piece: {}): {:?}", c.addr, measured(c), h.addr, measured(h), seeder, now.iter().map(peer_tuple).collect::<Vec<_>>())));
             }
         }
     }
@@ -237,6 +246,103 @@ impl Scenario for Slots {
 }
 
 // -------------------------------------------------------------------------------------------
+// Roles: which rate the rotation ranks by depends on whether the client owns every piece — not on
+// reservations. 12 interested peers whose two rates order them in opposite ways.
+
+pub struct Roles {
+    /// per piece of a 2-piece torrent: 'M' missing, 'H' owned, 'R' reserved for a downloading peer
+    pub statuses: &'static str,
+}
+
+impl Scenario for Roles {
+    type Mon = Mon;
+    fn name(&self) -> String {
+        format!("roles-{}", self.statuses)
+    }
+    fn cfg(&self) -> WorldCfg {
+        WorldCfg { torrent: Torrent::new("t", 1, &[("f", 2)], true), have: vec![], peers: vec![], gated: false, stale: vec![] }
+    }
+    fn explore_choices(&self) -> bool {
+        true
+    }
+    fn setup(&self, w: &mut World, mon: &mut Mon) {
+        let n = 12;
+        for k in 0..n {
+            w.add_mgr_peer();
+            w.step(&Ev::MgrStats(k, Some((n - k) as u32 * 100), Some((k + 1) as u32 * 100)), &[]);
+            w.step(&Ev::MgrBitfield(k, vec![false, false]), &[]);
+            w.step(&Ev::MgrInterested(k), &[]);
+        }
+        // downloading connections (not interested in us) that hold the reserved pieces
+        let mut d = n;
+        for (i, c) in self.statuses.chars().enumerate() {
+            match c {
+                'H' => w.session.verif_set_status(i, Status::Have),
+                'R' => {
+                    w.add_mgr_peer();
+                    w.step(&Ev::MgrStats(d, Some(1), Some(1)), &[]);
+                    w.step(&Ev::MgrBitfield(d, (0..2).map(|j| j == i).collect()), &[]);
+                    w.step(&Ev::MgrUnchoke(d), &[]);
+                    d += 1;
+                }
+                _ => {}
+            }
+        }
+        let snap = w.snap();
+        for (i, c) in self.statuses.chars().enumerate() {
+            let ok = match c {
+                'H' => snap.statuses[i] == Status::Have,
+                'R' => matches!(snap.statuses[i], Status::Reserved(_)),
+                _ => snap.statuses[i] == Status::Missing,
+            };
+            assert!(ok, "roles scenario {}: piece {} is {:?}", self.statuses, i, snap.statuses[i]);
+        }
+        mon.bitfield_sent = vec![true; d];
+        mon.killed = vec![false; d];
+        mon.prev = snap.peers;
+    }
+    fn enabled(&self, w: &World, _mon: &Mon, _depth: usize) -> Vec<String> {
+        let snap = w.snap();
+        let mut out = vec!["R".to_string()];
+        for k in [0usize, 5, 11] {
+            if let Some(p) = snap.peers.iter().find(|p| p.addr == w.mgr_peers[k]) {
+                out.push(format!("{}{}", if p.interested { 'N' } else { 'I' }, k));
+            }
+        }
+        out
+    }
+    fn concretize(&self, _w: &World, _mon: &Mon, sym: &str) -> Vec<Ev> {
+        if sym == "R" {
+            return vec![Ev::Rotate];
+        }
+        let k: usize = sym[1..].parse().unwrap();
+        vec![if sym.starts_with('I') { Ev::MgrInterested(k) } else { Ev::MgrNotInterested(k) }]
+    }
+    fn check(&self, w: &World, mon: &mut Mon, last: Option<&str>) -> Option<(&'static str, String)> {
+        if let Some(d) = &w.dead {
+            return Some(("manager-died", d.clone()));
+        }
+        let snap = w.snap();
+        if let Some(v) = limits(&snap.peers) {
+            return Some(v);
+        }
+        if last == Some("R") {
+            let seeder = snap.statuses.iter().all(|s| *s == Status::Have);
+            if let Some(v) = rotation_oracle_by(&mon.prev, &snap.peers, &w.broadcasts, seeder) {
+                return Some(v);
+            }
+        }
+        mon.prev = snap.peers;
+        None
+    }
+    fn key(&self, w: &World, _mon: &Mon) -> String {
+        let snap = w.snap();
+        let tuples: Vec<String> = w.mgr_peers.iter().map(|a| snap.peers.iter().find(|p| &p.addr == a).map(peer_tuple).unwrap_or_else(|| "gone".to_string())).collect();
+        format!("round={} {:?} {:?}", snap.round, snap.statuses, tuples)
+    }
+}
+
+// -------------------------------------------------------------------------------------------
 // E-SYS part: wire agreement with three real connection tasks
 // -------------------------------------------------------------------------------------------
 
@@ -381,6 +487,13 @@ pub fn run(ctx: &Ctx) -> Outcome {
         sym_counts.push((s.name(), st.states));
         total.merge(&st);
     }
+    for statuses in ["MM", "HM", "HR", "RH", "RR", "RM", "HH"] {
+        let r = Roles { statuses };
+        let depth = ctx.tier.pick(4, 6);
+        let st = explore::bfs(ctx, &r, depth, ctx.tier.pick(40, 15));
+        per.push(json!({"scenario": r.name(), "depth": depth, "states": st.states, "transitions": st.transitions, "depth_completed": st.depth_completed}));
+        total.merge(&st);
+    }
     let w = Wire { n: 3 };
     let wd = ctx.tier.pick(7, 9);
     let st = explore::bfs(ctx, &w, wd, ctx.tier.pick(40, 15));
@@ -390,8 +503,8 @@ pub fn run(ctx: &Ctx) -> Outcome {
     let mut o = Outcome::new("model_checking");
     explore::stats_outcome(&total, &mut o);
     o.set("scenarios", Value::Array(per));
-    o.set("rule", json!("E-MGR: BFS over commands handed to the real Session::handle_peer_cmd / timeout_change_conn_state for N manager-only peers: B<k> bitfield, I<k>/N<k> interest, S<k>:<rate> statistics (both rates set to the value), K<k> disconnect, R rotation (the optimistic choice is an enumerated choice point); symmetric scenarios offer events for one representative per class of identical peers and sort peers in the state key (validated by the n=3 full/sym pair exploring the same depth). E-SYS: 3 real connection tasks with gated broadcasts: B/I/N frames, R rotation, L<k> release of one held-back broadcast."));
-    o.assume("the policy's 'measured rate' is not judged: both reported rates are set to the same value; ties in rate are ordered by address under the verif feature (peer names are symmetric and every assignment of roles to names is explored)");
+    o.set("rule", json!("E-MGR: BFS over commands handed to the real Session::handle_peer_cmd / timeout_change_conn_state for N manager-only peers: B<k> bitfield, I<k>/N<k> interest, S<k>:<rate> statistics (both rates set to the value), K<k> disconnect, R rotation (the optimistic choice is an enumerated choice point); symmetric scenarios offer events for one representative per class of identical peers and sort peers in the state key (validated by the n=3 full/sym pair exploring the same depth). Roles: 12 interested peers whose two reported rates order them in opposite ways (received-from rate 1200..100, sent-to rate 100..1200), on a 2-piece torrent whose pieces are missing / owned / reserved for a downloading connection in 7 combinations; events R and interest changes of three peers; the ranking must follow the sent-to rate unless the client owns every piece. E-SYS: 3 real connection tasks with gated broadcasts: B/I/N frames, R rotation, L<k> release of one held-back broadcast."));
+    o.assume("except in the roles-* scenarios both reported rates are set to the same value; there, the rate the pinned code ranks by in each role (data received from the peer when the client owns every piece, data sent to the peer otherwise) is taken as the definition of 'measured rate', and what is judged is that the role follows ownership, not reservations; ties in rate are ordered by address under the verif feature (peer names are symmetric and every assignment of roles to names is explored)");
     o
 }
 
@@ -400,6 +513,11 @@ pub fn replay(_ctx: &Ctx, r: &Value) -> i32 {
     let hist = explore::hist_from_json(&r["history"]);
     if name.starts_with("wire-") {
         return explore::replay_verbose(&Wire { n: 3 }, &hist, "C14");
+    }
+    for statuses in ["MM", "HM", "HR", "RH", "RR", "RM", "HH"] {
+        if name == format!("roles-{}", statuses) {
+            return explore::replay_verbose(&Roles { statuses }, &hist, "C14");
+        }
     }
     for thorough in [false, true] {
         for (s, _) in mgr_scenarios(thorough) {
